@@ -97,10 +97,76 @@ func sbOne(cfg *config, input []byte, eofWith bool, sched []int) {
 	}
 }
 
+// sbTokens: the token stream of the real tokenScanner over the scheduled reader against the token stream over
+// a reader that hands everything over at once (type, text, line, column of every token): what Scan and
+// TokenText make of the buffer machine must not depend on how the reader cut the input.  Judge only.
+func sbTokens(cfg *config, input []byte, eofWith bool, sched []int) {
+	sbTokensVs(cfg, input, nil, eofWith, sched)
+}
+
+// sbTokensVs: with a baseline, the tokens (type and text only) of `input` - a statement whose blanks were
+// stretched so that a literal lies across a buffer end - against those of the unstretched statement.
+func sbTokensVs(cfg *config, input []byte, baseline []byte, eofWith bool, sched []int) {
+	tr := cfg.tr
+	ss := make([]string, len(sched))
+	for i, x := range sched {
+		ss[i] = strconv.Itoa(x)
+	}
+	if baseline == nil {
+		tr.Op("tok %s %s %s", hx.Hex(input), b01(eofWith), strings.Join(ss, ","))
+	} else {
+		tr.Op("tokvs %s %s %s %s", hx.Hex(input), b01(eofWith), strings.Join(ss, ","), hx.Hex(baseline))
+	}
+	wdog.Run(func() {
+		scan := func(rd io.Reader) (out []string, pm string) {
+			pm = hx.Catch(func() {
+				ts := sql.NewTokenScanner(rd)
+				for n := 0; ts.Next() && n < 100000; n++ {
+					t := ts.Cur()
+					if baseline == nil {
+						out = append(out, fmt.Sprintf("%d/%x/%d/%d", t.Type, t.Text, t.Line, t.Column))
+					} else {
+						out = append(out, fmt.Sprintf("%d/%x", t.Type, t.Text))
+					}
+				}
+			})
+			return
+		}
+		first := input
+		if baseline != nil {
+			first = baseline
+		}
+		a, pa := scan(strings.NewReader(string(first)))
+		b, pb := scan(&schedReader{data: append([]byte{}, input...), sched: sched, eofWithData: eofWith})
+		switch {
+		case pa != "" || pb != "":
+			tr.Tilde("panic")
+		case len(a) != len(b):
+			tr.Tilde(fmt.Sprintf("differs in number: %d tokens at once, %d tokens under the schedule", len(a), len(b)))
+		default:
+			d := ""
+			for i := range a {
+				if a[i] != b[i] {
+					d = fmt.Sprintf("differs at token %d: at-once=%s scheduled=%s", i, a[i], b[i])
+					break
+				}
+			}
+			if d == "" {
+				d = "same"
+			}
+			if len(d) > 300 {
+				d = d[:300]
+			}
+			tr.Tilde(d)
+		}
+	})
+	cfg.st.Inc("token-streams")
+}
+
 func sbParse(lines []string) (input []byte, eofWith bool, sched []int, ok bool) {
 	for _, l := range lines {
 		f := strings.Fields(l)
-		if len(f) == 4 && f[0] == "sb" {
+		if len(f) >= 4 && (f[0] == "sb" || f[0] == "tok" || f[0] == "tokvs") {
 			input = []byte(unhex(f[1]))
 			eofWith = f[2] == "1"
 			for _, s := range strings.Split(f[3], ",") {
@@ -122,6 +188,7 @@ func runScanBuf(cfg *config) {
 			cfg.tr.Case(id)
 			if in, e, sc, ok := sbParse(c); ok {
 				sbOne(cfg, in, e, sc)
+				sbTokens(cfg, in, e, sc)
 			}
 		}
 		return
@@ -176,6 +243,20 @@ func runScanBuf(cfg *config) {
 				for k := 0; k < n; k++ {
 					sbOne(cfg, []byte(in), r.Bool(), scheds[r.Intn(len(scheds))])
 				}
+				// the same piece inside a string literal, a quoted name and a word that straddle the buffer end
+				for _, ctx := range [][2]string{{"SELECT '", "' FROM t"}, {"SELECT \"", "\" FROM t"}, {"SELECT a", "b FROM t"}} {
+					if pad-len(ctx[0])-3 < 1 {
+						continue
+					}
+					stmt := ctx[0] + strings.Repeat("x", pad-len(ctx[0])-3) + "yz" + p + "q" + p + ctx[1]
+					sbTokens(cfg, []byte(stmt), r.Bool(), scheds[r.Intn(len(scheds))])
+					// the same token short, behind stretched blanks, against the unstretched statement
+					head := strings.TrimPrefix(ctx[0], "SELECT ")
+					body := head + "yz" + p + "q" + p + ctx[1]
+					if k := pad - len("SELECT") - len(head) - 2; k >= 1 {
+						sbTokensVs(cfg, []byte("SELECT"+strings.Repeat(" ", k)+body), []byte("SELECT "+body), r.Bool(), [][]int{{4096}, {1021, 1}, {3}}[r.Intn(3)])
+					}
+				}
 				cfg.st.Seen(fmt.Sprint(p, boundary, shift), true)
 			}
 		}
@@ -205,6 +286,7 @@ func runScanBuf(cfg *config) {
 		id++
 		cfg.tr.Case(id)
 		sbOne(cfg, []byte(in), rr.Bool(), sched)
+		sbTokens(cfg, []byte(in), rr.Bool(), sched)
 		cfg.st.Seen(in, true)
 	}
 }
